@@ -35,9 +35,12 @@ import (
 	"github.com/ozontech/seq-db/frac/processor"
 	"github.com/ozontech/seq-db/fracmanager"
 	"github.com/ozontech/seq-db/logger"
+	"github.com/ozontech/seq-db/mappingprovider"
 	"github.com/ozontech/seq-db/parser"
+	pb "github.com/ozontech/seq-db/pkg/storeapi"
 	"github.com/ozontech/seq-db/proxy/bulk"
 	"github.com/ozontech/seq-db/seq"
+	"github.com/ozontech/seq-db/storeapi"
 	"github.com/ozontech/seq-db/verifhook"
 	"github.com/ozontech/seq-db/zstd"
 
@@ -347,6 +350,8 @@ func main() {
 	if mode := os.Getenv("C19_CHILD"); mode != "" {
 		if mode == "conc" {
 			concChild()
+		} else if strings.HasPrefix(mode, "api-") {
+			apiChild(strings.TrimPrefix(mode, "api-"))
 		} else {
 			sysChild(mode)
 		}
@@ -358,6 +363,7 @@ func main() {
 	g := gen{vh.NewRNG(o.Seed)}
 	chCodec := vh.NewChannel("qpr.codec", "QPR -> JSON -> zstd -> JSON -> QPR (per-fraction result file) vs SV.Async.roundtrip (AggBin key 'mid|token' codec); non-trivial = has an aggregation bin")
 	chFetch := vh.NewChannel("async.fetch", "AsyncSearcher.FetchSearchResult over crafted result files vs SV.Async.fetchFold (MergeQPRs(.., MaxInt, 1, order) per file); non-trivial = an ID occurs in two files")
+	chParams = vh.NewChannel("async.params", "the parameters GrpcV1.StartAsyncSearch(request) persists (<id>.info: From, To, Limit, HistInterval, WithTotal, Order, retention, expiry) vs SV.Async.asyncParams, requests at the integer edges; an undeclared Order panics")
 	orcSys := vh.NewOracle("async.system", "real FracManager+AsyncSearcher, process killed after the k-th atomic write and restarted: fetched result == synchronous SearchDocs (ids, histogram, aggregations); non-trivial = a crash point inside the run and >1 fraction")
 
 	var sysLines []string
@@ -373,7 +379,7 @@ func main() {
 				chCodec.Add(l, runCodec(l), true, "replay")
 			case "fetch":
 				chFetch.Add(l, runFetch(l), true, "replay")
-			case "async", "asyncconc":
+			case "async", "asyncconc", "asyncapi":
 				sysLines = append(sysLines, l)
 			}
 		}
@@ -410,6 +416,7 @@ func main() {
 	runSys(sysLines, orcSys, rep, o)
 	rep.AddChannel(chCodec, o.Driver)
 	rep.AddChannel(chFetch, o.Driver)
+	rep.AddChannel(chParams, o.Driver)
 	rep.AddOracle(orcSys)
 	rep.Write(o.Out)
 }
@@ -492,6 +499,7 @@ type sysOut struct {
 	Phase  string `json:"phase"`
 	Async  string `json:"async,omitempty"`
 	Sync   string `json:"sync,omitempty"`
+	Params string `json:"params,omitempty"`
 	Writes int    `json:"writes"`
 	Fracs  int    `json:"fracs"`
 	Err    string `json:"err,omitempty"`
@@ -815,6 +823,202 @@ func concChild() {
 	emit()
 }
 
+// apiChild: the same kill-and-restart experiment through the public store API: GrpcV1.StartAsyncSearch(request) on a
+// real storeapi.Store, restart = a new Store on the same directory, GrpcV1.FetchAsyncSearchResult; the reference is
+// GrpcV1.Search with the same From/To/Interval/Order, Size = MaxInt32, Offset 0, no total.  Also compared: the echoed
+// HistogramInterval / Order, the expiration (24 h after the start, also after the restart) and the persisted parameters
+// (<id>.info) against SV.Async.asyncParams (returned in `Params` for the channel async.params).
+// Line: asyncapi docs=.. layout=.. lastActive=.. qx=.. from=<i64> to=<i64> interval=<i64> order=<n> crash=<k> at=..
+func apiChild(phase string) {
+	logger.SetLevel(zap.FatalLevel)
+	out := sysOut{Phase: phase}
+	emit := func() {
+		bts, _ := json.Marshal(out)
+		fmt.Println(string(bts))
+	}
+	line, _ := bufio.NewReader(os.Stdin).ReadString('\n')
+	m := kv(strings.Fields(line)[1:])
+	dir := os.Getenv("C19_DIR")
+	crashAt, crashPoint := atoi(m["crash"]), "c19.atomic."+m["at"]
+	writes := 0
+	verifhook.Set(func(name, s string, _ []int64) {
+		if name == "c19.atomic.written" {
+			writes++
+		}
+		if phase == "build" && crashAt > 0 && name == crashPoint {
+			n := writes
+			if m["at"] == "before-rename" {
+				n = writes + 1
+			}
+			if n == crashAt {
+				out.Writes = writes
+				out.Err = "crashed"
+				emit()
+				os.Exit(7)
+			}
+		}
+	})
+	mp, err := mappingprovider.New("", mappingprovider.WithMapping(seq.TestMapping))
+	if err != nil {
+		out.Err = "mapping: " + err.Error()
+		emit()
+		return
+	}
+	os.MkdirAll(filepath.Join(dir, "data"), 0o755)
+	st, err := storeapi.NewStore(context.Background(), storeapi.StoreConfig{
+		FracManager: fracmanager.Config{DataDir: filepath.Join(dir, "data"), FracSize: 1 << 30, TotalSize: 1 << 40, ShouldReplay: true, MaintenanceDelay: time.Hour},
+		API:         storeapi.APIConfig{StoreMode: storeapi.StoreModeCold, Search: storeapi.SearchConfig{WorkersCount: 4, FractionsPerIteration: 2}},
+	}, mp)
+	if err != nil {
+		out.Err = "store: " + err.Error()
+		emit()
+		return
+	}
+	fm := st.FracManager
+	if phase == "build" {
+		var docs []sdoc
+		for _, e := range splitList(m["docs"], ",") {
+			p := strings.Split(e, ":")
+			d := sdoc{id: seq.ID{MID: seq.MID(atou(p[0])), RID: seq.RID(atou(p[1]))}, svc: p[2], val: p[3]}
+			if len(p) >= 6 {
+				d.msg, d.uri = atoi(p[4]), atoi(p[5])
+			}
+			docs = append(docs, d)
+		}
+		groups := strings.Split(m["layout"], ";")
+		for gi, grp := range groups {
+			dp := frac.NewDocProvider()
+			for _, e := range splitList(grp, ",") {
+				body, toks := docTokens(docs[atoi(e)])
+				dp.Append(body, nil, docs[atoi(e)].id, toks)
+			}
+			if dp.DocCount > 0 {
+				dm, mm := dp.Provide()
+				if err := fm.Append(context.Background(), dm, mm); err != nil {
+					out.Err = "append: " + err.Error()
+					emit()
+					return
+				}
+				fm.WaitIdle()
+			}
+			if gi < len(groups)-1 || m["lastActive"] != "1" {
+				fm.SealForcedForTests()
+			}
+		}
+	}
+	from, to, interval := parseI64(m["from"]), parseI64(m["to"]), parseI64(m["interval"])
+	ord := pb.Order(atoi(m["order"]))
+	ctx := context.Background()
+	startedAt := time.Now()
+	if phase == "build" {
+		var pan string
+		func() {
+			defer func() {
+				if x := recover(); x != nil {
+					pan = fmt.Sprint(x)
+				}
+			}()
+			_, err = st.GrpcV1().StartAsyncSearch(ctx, &pb.StartAsyncSearchRequest{SearchId: "req1", Query: queryOf(m), From: from, To: to,
+				HistogramInterval: interval, Order: ord})
+		}()
+		if pan != "" {
+			out.Err = "start-panic"
+			emit()
+			return
+		}
+		if err != nil {
+			out.Err = "start: " + err.Error()
+			emit()
+			return
+		}
+	}
+	// the persisted request (for the channel async.params)
+	if raw, err := os.ReadFile(filepath.Join(dir, "data", "async_searches", "req1.info")); err == nil {
+		var info struct {
+			Request struct {
+				Params struct {
+					HistInterval uint64
+					From, To     uint64
+					Limit        int64
+					WithTotal    bool
+					Order        uint8
+				}
+				Retention int64
+			}
+			Expiration, StartTime time.Time
+		}
+		if json.Unmarshal(raw, &info) == nil {
+			p := info.Request.Params
+			out.Params = fmt.Sprintf("ok %d %d %d %d %s %s retention=%d expiry-start=%d", p.From, p.To, p.Limit, p.HistInterval, vh.B(p.WithTotal), vh.B(p.Order == 0),
+				info.Request.Retention/int64(time.Hour), int64(info.Expiration.Sub(info.StartTime)/time.Hour))
+		}
+	}
+	deadline := time.Now().Add(8 * time.Second)
+	var resp *pb.FetchAsyncSearchResultResponse
+	for {
+		var pan string
+		func() {
+			defer func() {
+				if x := recover(); x != nil {
+					pan = fmt.Sprint(x)
+				}
+			}()
+			resp, err = st.GrpcV1().FetchAsyncSearchResult(ctx, &pb.FetchAsyncSearchResultRequest{SearchId: "req1"})
+		}()
+		if pan != "" {
+			out.Err = "fetch-panic"
+			emit()
+			return
+		}
+		if err != nil {
+			out.Err = "not-found"
+			out.Writes = writes
+			emit()
+			return
+		}
+		if resp.Done || time.Now().After(deadline) {
+			break
+		}
+		time.Sleep(2 * time.Millisecond)
+	}
+	if !resp.Done {
+		out.Err = "not-done"
+		emit()
+		return
+	}
+	exp := resp.Expiration.AsTime().Sub(startedAt)
+	expOK := exp <= 24*time.Hour+time.Minute && exp >= 24*time.Hour-10*time.Minute
+	out.Async = respCanon(resp.Response) + fmt.Sprintf(" interval=%d order=%d expiry-24h=%v", resp.HistogramInterval, resp.Order, expOK)
+	sresp, err := st.GrpcV1().Search(ctx, &pb.SearchRequest{Query: queryOf(m), From: from, To: to, Size: math.MaxInt32, Offset: 0, Interval: interval, WithTotal: false, Order: ord})
+	if err != nil {
+		out.Err = "sync: " + err.Error()
+		emit()
+		return
+	}
+	out.Sync = respCanon(sresp) + fmt.Sprintf(" interval=%d order=%d expiry-24h=true", interval, ord)
+	out.Writes = writes
+	emit()
+}
+
+func parseI64(s string) int64 {
+	v, err := strconv.ParseInt(s, 10, 64)
+	if err != nil {
+		panic("bad int64 " + s)
+	}
+	return v
+}
+
+func respCanon(r *pb.SearchResponse) string {
+	q := &seq.QPR{Total: r.Total, Histogram: map[seq.MID]uint64{}}
+	for _, id := range r.IdSources {
+		q.IDs = append(q.IDs, seq.IDSource{ID: seq.ID{MID: seq.MID(id.Id.Mid), RID: seq.RID(id.Id.Rid)}})
+	}
+	for k, v := range r.Histogram {
+		q.Histogram[seq.MID(k)] = v
+	}
+	return fmtIDs(q.IDs) + "/" + strconv.FormatUint(q.Total, 10) + "/" + fmtHist(q.Histogram)
+}
+
 func runChild(phase, dir, line string, tmo time.Duration) (sysOut, int, string) {
 	cmd := exec.Command(os.Args[0])
 	cmd.Env = append(os.Environ(), "C19_CHILD="+phase, "C19_DIR="+dir)
@@ -853,6 +1057,48 @@ func runChild(phase, dir, line string, tmo time.Duration) (sysOut, int, string) 
 		se = se[len(se)-600:]
 	}
 	return out, code, se
+}
+
+var chParams *vh.Channel
+
+func genAPIAsync(g gen, o vh.Opts) []string {
+	var lines []string
+	edges := []int64{0, -1, 1, 7, -9223372036854775808, 9223372036854775807, 20, 100000}
+	for c := 0; c < o.Pick(25, 200); c++ {
+		n := g.r.Range(1, 10)
+		seen := map[seq.ID]bool{}
+		var docs []string
+		for len(docs) < n {
+			id := seq.ID{MID: seq.MID(1 + g.r.Intn(30)), RID: seq.RID(g.r.Intn(2))}
+			if g.r.Chance(1, 8) {
+				id.MID = seq.MID(uint64(1)<<63 + uint64(g.r.Intn(5)))
+			}
+			if seen[id] {
+				continue
+			}
+			seen[id] = true
+			docs = append(docs, fmt.Sprintf("%d:%d:%s:%d:%d:%d", uint64(id.MID), id.RID, []string{"a", "b"}[g.r.Intn(2)], g.r.Intn(100), g.r.Intn(len(messages)), g.r.Intn(len(uris))))
+		}
+		k := g.r.Range(1, 3)
+		layout := make([][]int, k)
+		for i := range docs {
+			j := g.r.Intn(k)
+			layout[j] = append(layout[j], i)
+		}
+		var lay []string
+		for _, idx := range layout {
+			lay = append(lay, vh.JoinInts(idx))
+		}
+		from, to := edges[g.r.Intn(len(edges))], edges[g.r.Intn(len(edges))]
+		if g.r.Chance(1, 2) {
+			from, to = 0, -1
+		}
+		query := []string{"service:a", "_all_:*", `message:"hello world"`, "_all_:*"}[g.r.Intn(4)]
+		lines = append(lines, fmt.Sprintf("asyncapi docs=%s layout=%s lastActive=%s qx=%s from=%d to=%d interval=%d order=%d crash=%d at=%s",
+			strings.Join(docs, ","), strings.Join(lay, ";"), b(g.r.Bool()), vh.Hex([]byte(query)), from, to,
+			[]int64{0, 0, 1, 5, 1000, -1, 9223372036854775807}[g.r.Intn(7)], []int{0, 1, 0, 1, 2}[g.r.Intn(5)], g.r.Intn(k+3), []string{"written", "before-rename"}[g.r.Intn(2)]))
+	}
+	return lines
 }
 
 func genSys(g gen, o vh.Opts) []string {
@@ -924,6 +1170,7 @@ func witnessLines() []string {
 func runSys(lines []string, orc *vh.Oracle, rep *vh.Report, o vh.Opts) {
 	if o.Replay == "" {
 		lines = append(witnessLines(), lines...)
+		lines = append(lines, genAPIAsync(gen{vh.NewRNG(o.Seed + 77)}, o)...)
 		lines = append(lines, fmt.Sprintf("asyncconc fracs=6 per=24 services=8 rounds=%d", o.Pick(60, 300)))
 	}
 	root, err := os.MkdirTemp("", "c19sys")
@@ -953,7 +1200,22 @@ func runSys(lines []string, orc *vh.Oracle, rep *vh.Report, o vh.Opts) {
 			continue
 		}
 		k := len(strings.Split(m["layout"], ";"))
-		out, code, se := runChild("build", dir, line, 40*time.Second)
+		pre := ""
+		if strings.HasPrefix(line, "asyncapi ") {
+			pre = "api-"
+		}
+		out, code, se := runChild(pre+"build", dir, line, 40*time.Second)
+		if pre != "" && out.Params != "" && chParams != nil {
+			chParams.Add(fmt.Sprintf("asyncparams %s %s %s %s", m["from"], m["to"], m["interval"], m["order"]), out.Params, true, "order="+m["order"])
+		}
+		if pre != "" && out.Err == "start-panic" { // an undeclared Order value: MustDocsOrder panics, nothing is persisted
+			orc.Case(line, false, "api", "start-panic")
+			if chParams != nil {
+				chParams.Add(fmt.Sprintf("asyncparams %s %s %s %s", m["from"], m["to"], m["interval"], m["order"]), "panic", true, "order="+m["order"])
+			}
+			os.RemoveAll(dir)
+			continue
+		}
 		crashed := code == 7
 		if code != 0 && !crashed {
 			rep.Violate(vh.Violation{Site: "fracmanager/async_searcher.go:processFrac", Class: classOfDeath(se),
@@ -962,7 +1224,7 @@ func runSys(lines []string, orc *vh.Oracle, rep *vh.Report, o vh.Opts) {
 			continue
 		}
 		if crashed {
-			out, code, se = runChild("resume", dir, line, 40*time.Second)
+			out, code, se = runChild(pre+"resume", dir, line, 40*time.Second)
 			if code != 0 {
 				rep.Violate(vh.Violation{Site: "fracmanager/async_searcher.go:doSearch", Class: "resume-" + classOfDeath(se),
 					What: fmt.Sprintf("store process died (exit %d) while resuming after crash point %s/%s: %s", code, m["crash"], m["at"], lastLine(se)), Replay: []string{line}})
